@@ -528,17 +528,26 @@ func VerifPAN() {
 	m := vf.Int("m", 0, N)
 	dA := verifMkVsys("a", n, grpA, MM, vf.Pick("a.port", []string{"80", "81"}), "r")
 	dB := verifMkVsys("b", m, grpB, MM, "80", "r")
-	if G > 0 && len(dA.groups) < G && vf.Bool("leftoverGroup") {
-		for _, gname := range grpA {
-			found := false
-			for _, g := range dA.groups {
-				found = found || g.Name == gname
+	if G > 0 && vf.Bool("leftoverGroup") {
+		// an unused address-group on the device: under a name the target
+		// uses as well or under another name
+		name := "g9"
+		if !vf.Bool("leftoverHasOtherName") {
+			name = ""
+			for _, gname := range grpA {
+				found := false
+				for _, g := range dA.groups {
+					found = found || g.Name == gname
+				}
+				if !found {
+					name = gname
+					break
+				}
 			}
-			if !found {
-				dA.groups = append(dA.groups, &panAddressGroup{Name: gname, Members: verifPickMembers("a.left."+gname, MM)})
-				vf.Cover("unused address-group on device")
-				break
-			}
+		}
+		if name != "" {
+			dA.groups = append(dA.groups, &panAddressGroup{Name: name, Members: verifPickMembers("a.left."+name, MM)})
+			vf.Cover("unused address-group on device")
 		}
 	}
 	model := &verifPan{*dA.clone()}
